@@ -23,6 +23,7 @@ import (
 	"pgregory.net/rapid"
 
 	"verifsim/core"
+	"verifsim/storesim"
 )
 
 type op struct {
@@ -37,6 +38,7 @@ type op struct {
 }
 
 type plan struct {
+	Store   *storePlan // store mode: the service against a real tsdb.Store (store_test.go)
 	Nodes   int
 	RPDurs  []time.Duration // per policy; 0 = infinite
 	SGDur   time.Duration
@@ -47,6 +49,9 @@ type plan struct {
 const interval = 30 * time.Minute
 
 func genPlan(t *rapid.T) interface{} {
+	if rapid.IntRange(0, 5).Draw(t, "storemode") == 0 {
+		return &plan{Store: genStore(t)}
+	}
 	p := &plan{}
 	p.Nodes = rapid.IntRange(1, 3).Draw(t, "nodes")
 	p.Replica = rapid.IntRange(1, p.Nodes).Draw(t, "replica")
@@ -251,6 +256,10 @@ func (n *node) DeleteShard(id uint64) error {
 
 func exec(run *core.Run, pl interface{}) {
 	p := pl.(*plan)
+	if p.Store != nil {
+		execStore(run, p.Store)
+		return
+	}
 	w := &world{run: run, data: &meta.Data{}, wantDur: map[string]time.Duration{}}
 	for i := 0; i < p.Nodes; i++ {
 		w.data.Index++
@@ -474,6 +483,9 @@ func exec(run *core.Run, pl interface{}) {
 
 func describe(pl interface{}) interface{} {
 	p := pl.(*plan)
+	if p.Store != nil {
+		return describeStore(p.Store)
+	}
 	var ops []string
 	for _, o := range p.Ops {
 		switch o.Kind {
@@ -498,12 +510,13 @@ func TestC17(t *testing.T) {
 		Gen:            genPlan,
 		Exec:           exec,
 		Bubble:         true,
+		Warmup:         storesim.Warmup,
 		Describe:       describe,
 		Tier:           "A",
-		RequiredProbes: []string{"group-marked-deleted", "local-shard-deleted", "duration-altered", "orphan-kept", "group-deleted-by-operator", "finite-group-truncated"},
-		Real:           []string{"retention.Service (run loop, ticker on the fake clock)", "meta.Data (ExpiredShardGroups, DeletedShardGroups, DeleteShardGroup, PruneShardGroups, CreateShardGroup, UpdateRetentionPolicy, TruncateShardGroups)"},
-		Stub:           []string{"TSDBStore (local shard set, DeleteShard with injected failures)", "meta client (serialised apply over real meta.Data, injected errors)"},
+		RequiredProbes: []string{"group-marked-deleted", "local-shard-deleted", "duration-altered", "orphan-kept", "group-deleted-by-operator", "finite-group-truncated", "store-shard-removed-and-verified", "store-live-shard-verified-beside-removed"},
+		Real:           []string{"retention.Service (run loop, ticker on the fake clock)", "meta.Data (ExpiredShardGroups, DeletedShardGroups, DeleteShardGroup, PruneShardGroups, CreateShardGroup, UpdateRetentionPolicy, TruncateShardGroups)", "store mode (1 run in 6): tsdb.Store.DeleteShard / ShardIDs on a real store (inmem, tsi1) with series file, WAL, TSM files, restarts"},
+		Stub:           []string{"metadata mode: TSDBStore (local shard set, DeleteShard with injected failures)", "meta client (serialised apply over real meta.Data, injected errors)"},
 		Assumptions:    []string{"the write-time cut-off ('a write is dropped as too old only if older than the retention period') is checked by C08's MapShards harness", "fault windows are short (<=3 calls); a shard whose deletion keeps failing for longer than the two-week pruning horizon is not explored"},
-		Rule:           "a run = seeded history of shard groups placed around the expiry boundary (+-1ns), duration changes (incl. infinite), operator deletes, truncation, clock advances up to 30h, injected metadata / DeleteShard errors, orphan local shards, under 1-3 real retention services ticking every 30 fake minutes; safety oracle at every DeleteShardGroup/DeleteShard call, bounded-liveness oracle after faults stop; non-trivial = at least one group marked deleted or local shard removed by the service",
+		Rule:           "a run = seeded history of shard groups placed around the expiry boundary (+-1ns), duration changes (incl. infinite), operator deletes, truncation, clock advances up to 30h, injected metadata / DeleteShard errors, orphan local shards, under 1-3 real retention services ticking every 30 fake minutes; safety oracle at every DeleteShardGroup/DeleteShard call, bounded-liveness oracle after faults stop; non-trivial = at least one group marked deleted or local shard removed by the service. Store mode: 3-18 steps (write / snapshot / compact / restart / sleep 1-300 min / operator delete / failing metadata or DeleteShard calls / read) on 2-4 real shards; live shards compared with their models after every sleep, restart and at the end",
 	})
 }
